@@ -158,6 +158,30 @@ def main(tier):
                 else:
                     chk.divergences += 1
                     print(f"DIVERGENCE property=C13 line={p['line']} event={json.dumps(p['event'])[:200]}")
+        # the rehash invocations made by the repository's own unit tests
+        import utrace
+        evs, summary = utrace.record(timeout=300)
+        if evs is None:
+            print(f"NOTE property=C13 unit-test traces not available: {summary}")
+        else:
+            uf = os.path.join(tdir, "ut_rehash.ndjson")
+            with open(uf, "w") as f:
+                f.write('{"ev":"Reset"}\n')
+                for e in evs:
+                    if e["ev"] in ("RehashStart", "DeviceStart", "TaskSpawn", "TaskStart", "TaskDone", "CollectorEnd"):
+                        f.write(json.dumps(e) + "\n")
+            problems, stats = lib.validate_traces("Trace_Rehash.tla", "Trace_Rehash.cfg", uf, max_problems=3)
+            chk.cov["states"] += stats["states"]
+            chk.cov["transitions"] += stats["generated"]
+            chk.cov["unit_test_traces"] = {"tests": summary, "rehash_events": stats["events"], "rehash_invocations": sum(1 for e in evs if e["ev"] == "RehashStart"),
+                                           "problems": len(problems)}
+            for p in problems:
+                if p["kind"] == "invariant":
+                    chk.violation(f"C13/unit-test-trace {p['name']}", f"{p['name']} false on a rehash execution of the repository's unit tests (line {p['line']})",
+                                  {"problem": {k: v for k, v in p.items() if k != 'run'}})
+                else:
+                    chk.divergences += 1
+                    print(f"DIVERGENCE property=C13 unit-test trace line={p['line']} event={json.dumps(p['event'])[:200]}")
     finally:
         lib.rmtree(tdir)
     nontrivial = 0
